@@ -934,6 +934,11 @@ func c10APIPrecision(c *mon.Ctx, l c10Layout, k int) {
 	if k < len(c10Precisions) {
 		docs = append(docs, c10BoundaryNums()...)
 	}
+	// zero written with a decimal point and an exponent: its normalised expansion has no
+	// fractional digit whatever the exponent says
+	for _, z := range []string{"0.0e-3", "-0.0E-5", "0.000e-12", "0.0e5", "0.00E+2", "-0.0e-1", "0.0e-0", "0.0E-40"} {
+		docs = append(docs, refnum.MustParse(z))
+	}
 	for _, d := range docs {
 		c10CountNumeral(c, d)
 		if d.FracLen() == n && d.Text != d.String() {
